@@ -164,6 +164,34 @@ where
         .or_else(|| if std::mem::size_of::<T>() == 0 { None } else { rt("option", &Some(v.clone()), so, strict) })
 }
 
+/// the mapping-key positions: key of a block mapping (at the root, after a dash, nested), of a flow mapping (at the
+/// root = the outermost flow collection, inside a block sequence, inside a flow sequence)
+fn key_positions<K>(k: &K, so: serde_saphyr::SerializerOptions, strict: bool) -> Option<String>
+where
+    K: Serialize + serde::de::DeserializeOwned + Ord + std::fmt::Debug + Clone,
+{
+    fn rt<U: Serialize + serde::de::DeserializeOwned + PartialEq + std::fmt::Debug>(what: &str, u: &U, so: serde_saphyr::SerializerOptions, strict: bool) -> Option<String> {
+        let text = match serde_saphyr::to_string_with_options(u, so) {
+            Ok(t) => t,
+            Err(e) => return Some(format!("{what}: serialization failed: {e:?}")),
+        };
+        match serde_saphyr::from_str_with_options::<U>(&text, dopts(strict)) {
+            Ok(back) if back == *u => None,
+            Ok(back) => Some(format!("{what}: emitted {text:?}, read back {back:?}")),
+            Err(e) => Some(format!("{what}: emitted {text:?}, reading fails: {}", e.to_string().lines().next().unwrap_or(""))),
+        }
+    }
+    let m: BTreeMap<K, i32> = BTreeMap::from([(k.clone(), 1)]);
+    let mut outer: BTreeMap<String, BTreeMap<K, i32>> = BTreeMap::new();
+    outer.insert("o".into(), m.clone());
+    rt("block map key", &m, so, strict)
+        .or_else(|| rt("block map key after a dash", &vec![m.clone()], so, strict))
+        .or_else(|| rt("nested block map key", &outer, so, strict))
+        .or_else(|| rt("flow map key (outermost flow collection)", &serde_saphyr::FlowMap(m.clone()), so, strict))
+        .or_else(|| rt("flow map key in a block sequence", &vec![serde_saphyr::FlowMap(m.clone())], so, strict))
+        .or_else(|| rt("map key inside a flow sequence", &serde_saphyr::FlowSeq(vec![m.clone()]), so, strict))
+}
+
 fn option_vectors(quick: bool) -> Vec<(serde_saphyr::SerializerOptions, bool, String)> {
     let mut v = Vec::new();
     for qa in [false, true] {
@@ -539,6 +567,10 @@ pub fn run(ctx: &mut Ctx) {
                 ctx.fail("string-round-trip", format!("[{name}] {m}"), json!({"kind": "string", "s": s, "options": name}));
                 break;
             }
+            if let Some(m) = key_positions(s, *so, *y12) {
+                ctx.fail("string-round-trip", format!("[{name}] {m}"), json!({"kind": "string", "s": s, "options": name}));
+                break;
+            }
             // as a mapping key
             let mut m = BTreeMap::new();
             m.insert(s.clone(), s.clone());
@@ -578,7 +610,7 @@ pub fn run(ctx: &mut Ctx) {
             if let Ok(x) = <$t>::try_from($v) {
                 for (so, y12, name) in vectors.iter().step_by(3) {
                     ctx.direct_evaluations += 1;
-                    if let Some(m) = positions(&x, *so, *y12) {
+                    if let Some(m) = positions(&x, *so, *y12).or_else(|| key_positions(&x, *so, *y12)) {
                         ctx.fail("integer-round-trip", format!("[{name}] {} {m}", stringify!($t)), json!({"kind": "int", "value": x.to_string(), "type": stringify!($t)}));
                         break;
                     }
